@@ -474,7 +474,10 @@ func catalogue2() []*cat {
 		mk[SkipRename]("SkipRename", noDeep, nodeGen),
 		mk[DashName]("DashName", noDeep),
 		mk[FieldIDs]("FieldIDs"),
-		mk[PtrMore]("PtrMore"),
+		// noDeep: a nil element of I []*In (repeated group: the schema has no null
+		// there) is the zero struct and reads back as a pointer to it; the
+		// model-level comparison of Reconstruct(Deconstruct(v)) with v applies
+		mk[PtrMore]("PtrMore", noDeep),
 		mk[ByteArrays]("ByteArrays"),
 		mk[OptKinds]("OptKinds", noDeep),
 		mk[MapTags]("MapTags", noRecon, nodeGen),
